@@ -183,6 +183,15 @@ var feeQuotes = []string{"5/100,5/100", "1/1,1/1", "2/1,2/1", "7/3,1/2", "1/1000
 
 func p2pkhScript(r *rng) []byte { return tmplP2PKH(r) }
 
+// nonData makes a random script a non-data one (C10 quantifies over non-data change scripts: a data script as change
+// destination is charged at the data rate by the size accounting and at the standard rate by Tx.change)
+func nonData(b []byte) []byte {
+	for bscript.NewFromBytes(b).IsData() {
+		b[0] ^= 0x11
+	}
+	return b
+}
+
 // genFeeTx: P2PKH-funded transaction, nIn inputs (unsigned unless signedPct), outputs incl. data outputs
 func genFeeTx(r *rng, nIn, nOut int, dataPct int, unlockedPct int) *bt.Tx {
 	tx := &bt.Tx{Version: 1, LockTime: 0}
@@ -279,9 +288,9 @@ func genC10(e *emitter, tier string, seed uint64) {
 	dests := func() string {
 		switch r.n(8) {
 		case 0:
-			return "new:" + hex.EncodeToString(r.bytes(1))
+			return "new:" + hex.EncodeToString(nonData(r.bytes(1)))
 		case 1:
-			return "new:" + hex.EncodeToString(r.bytes(26))
+			return "new:" + hex.EncodeToString(nonData(r.bytes(26)))
 		case 2:
 			return "new:" + hex.EncodeToString(append([]byte{0x76}, r.bytes(199)...))
 		case 3:
